@@ -741,8 +741,11 @@ def fam_recurse(rnd, i):
         cnt[0] += 1
         return "%s%d" % (prefix, cnt[0])
     removed = None
-    for _ in range(rnd.randint(4, 14)):
+    long = rnd.random() < 0.3          # long histories: more than ten renames in one Watcher's life
+    for _ in range(rnd.randint(16, 30) if long else rnd.randint(4, 14)):
         r = rnd.random()
+        if long and r < 0.40:
+            r = 0.7                    # mostly renames of inner directories
         if r < 0.40:
             d = rnd.choice(dirs)
             f = d + (rnd.choice(["f1", "f2", "f10"]),)
